@@ -263,3 +263,110 @@ def cli_plumbing(chk: Check, rule: str, table: list[tuple[str, str, str]], doc: 
                 chk.undecided(rule, run, construct, "keyword may be passed through **", run.loc(sites[0]))
             else:
                 chk.violation(rule, run, construct, f"option dropped: `{kw}` is not passed to {ctor} (the user's `{param}` has no effect)", run.loc(sites[0]))
+
+
+# ------------------------------------------------------------------------------------ MEMO-KEY completeness
+def _chains(fn: FuncInfo, expr: ast.AST, roots: set[str], depth: int = 0, seen: frozenset[str] = frozenset()) -> set[str]:
+    """Dotted chains rooted at a parameter that `expr` depends on, following local assignments (def-use closure)."""
+    out: set[str] = set()
+    consumed: set[int] = set()
+    for n in ast.walk(expr):
+        if id(n) in consumed:
+            continue
+        d = dotted(n) if isinstance(n, (ast.Attribute, ast.Name)) else None
+        if d is None:
+            continue
+        for sub in ast.walk(n):  # maximal chains only
+            consumed.add(id(sub))
+        head, _, rest = d.partition(".")
+        if head in roots:
+            out.add(d)
+            continue
+        if depth >= 6 or head in seen:
+            continue
+        scope: FuncInfo | None = fn
+        while scope is not None:
+            vals = [v for _, v in assignments_to(scope.node, head) if v is not None]
+            if vals:
+                for v in vals:
+                    if isinstance(v, ast.Call) and dotted(v.func) == "cast" and len(v.args) == 2:
+                        v = v.args[1]  # transparent wrapper
+                    dv = dotted(v)
+                    if dv is not None and rest:
+                        # alias of a chain:  x = a.b ; use x.c  ->  a.b.c
+                        out |= _chains(scope, ast.parse(f"{dv}.{rest}", mode="eval").body, roots, depth + 1, seen | {head})
+                    else:
+                        out |= _chains(scope, v, roots, depth + 1, seen | {head})
+                break
+            scope = scope.parent
+    return out
+
+
+def memo_key_rule(chk: Check, rule: str, fns: list[FuncInfo], suppress: dict[tuple[str, str], str] | None = None, doc: str = "") -> None:
+    """For every explicit cache store `C[...][key] = value` / `cache.insert_x(key, value)` in `fns`: every parameter
+    (attribute chain) the cached value is computed from must be part of the key."""
+    chk.rule(rule, doc or "MEMO-KEY: whatever a cached value is computed from (parameters, configuration fields) is part of its cache key", floor=1)
+    suppress = suppress or {}
+    n = 0
+    for fn in fns:
+        roots = set(params_of(fn.node))
+        p = fn.parent
+        while p is not None:
+            roots |= set(params_of(p.node))
+            p = p.parent
+        roots.discard("self")
+        stores: list[tuple[ast.AST, list[ast.expr], ast.expr]] = []  # (site, key exprs, value expr)
+        for s in walk_body(fn.node):
+            if isinstance(s, ast.Assign) and len(s.targets) == 1 and isinstance(s.targets[0], ast.Subscript):
+                tgt = s.targets[0]
+                base_txt = unparse(tgt.value, 200)
+                if "cache" not in base_txt.lower():
+                    continue
+                keys: list[ast.expr] = [tgt.slice]
+                b: ast.AST = tgt.value
+                while True:
+                    if isinstance(b, ast.Subscript):
+                        keys.append(b.slice)
+                        b = b.value
+                    elif isinstance(b, ast.Call) and last_attr(b) == "setdefault" and b.args:
+                        keys.append(b.args[0])
+                        b = b.func.value  # type: ignore[union-attr]
+                    elif isinstance(b, ast.Name):
+                        # local alias of a cache entry: cache = CACHE.setdefault(operation, {})
+                        vals = [v for _, v in assignments_to(fn.node, b.id) if v is not None]
+                        if vals and isinstance(vals[0], (ast.Call, ast.Subscript)) and "cache" in unparse(vals[0], 200).lower():
+                            b = vals[0]
+                            continue
+                        break
+                    else:
+                        break
+                stores.append((s, keys, s.value))
+            elif isinstance(s, ast.Expr) and isinstance(s.value, ast.Call) and (last_attr(s.value) or "").startswith("insert_") and len(s.value.args) >= 2 and "cache" in unparse(s.value.func, 100).lower():
+                c = s.value
+                recv = c.func.value if isinstance(c.func, ast.Attribute) else None
+                keys = list(c.args[:-1]) + ([recv] if recv is not None else [])
+                stores.append((s, keys, c.args[-1]))
+        for site, keys, value in stores:
+            n += 1
+            key_chains: set[str] = set()
+            for k in keys:
+                key_chains |= _chains(fn, k, roots)
+            deps = _chains(fn, value, roots)
+            missing = sorted(d for d in deps if not any(d == k or d.startswith(k + ".") or k.startswith(d + ".") and False for k in key_chains))
+            # a whole-object dependency (`generation_config` passed on) is covered by any key derived from that object
+            missing = [d for d in missing if not any(k.split(".")[0] == d for k in key_chains if "." not in d)]
+            construct = f"cache store {unparse(site, 70)}"
+            real = []
+            for d in missing:
+                why = suppress.get((fn.name, d.split(".")[0])) or suppress.get((fn.name, d))
+                if why:
+                    chk.ok(rule, fn, f"{construct}: `{d}` not in key", f"named suppression: {why}", fn.loc(site))
+                else:
+                    real.append(d)
+            if real:
+                chk.violation(rule, fn, construct,
+                              f"the cached value is computed from {real} but the key is built from {sorted(key_chains)} only: a later call that differs in {real} gets the value cached for the earlier one",
+                              fn.loc(site))
+            else:
+                chk.ok(rule, fn, construct, f"key covers {sorted(deps)}", fn.loc(site))
+    chk.note(f"{rule}: {n} explicit cache store(s) analysed")
